@@ -60,11 +60,12 @@ Proof. exact too_long_cert_sound. Qed.
 Definition ex_cube1 : sh := Sum (Pt (V 0 0 0)) (Sum (Seg (V 1 0 0)) (Sum (Seg (V 0 1 0)) (Seg (V 0 0 1)))).
 Definition ex_cube2 : sh := Sum (Pt (V (3 # 2) 0 0)) (Sum (Seg (V 1 0 0)) (Sum (Seg (V 0 1 0)) (Seg (V 0 0 1)))).
 Definition wv (s1 s2 s3 : Q) : wit := WSum WPt (WSum (WSeg s1) (WSum (WSeg s2) (WSeg s3))).
+Definition pv (s1 s2 s3 : Q) : pwit := PW (wv s1 s2 s3).
 (** vertex differences (a - b) that are extreme in the octant directions: a = s, b = -s *)
-Definition ex_ws : list (wit * wit) :=
-  [(wv 1 1 1, wv (-1) (-1) (-1)); (wv 1 1 (-1), wv (-1) (-1) 1); (wv 1 (-1) 1, wv (-1) 1 (-1));
-   (wv 1 (-1) (-1), wv (-1) 1 1); (wv (-1) 1 1, wv 1 (-1) (-1)); (wv (-1) 1 (-1), wv 1 (-1) 1);
-   (wv (-1) (-1) 1, wv 1 1 (-1)); (wv (-1) (-1) (-1), wv 1 1 1)].
+Definition ex_ws : list (pwit * pwit) :=
+  [(pv 1 1 1, pv (-1) (-1) (-1)); (pv 1 1 (-1), pv (-1) (-1) 1); (pv 1 (-1) 1, pv (-1) 1 (-1));
+   (pv 1 (-1) (-1), pv (-1) 1 1); (pv (-1) 1 1, pv 1 (-1) (-1)); (pv (-1) 1 (-1), pv 1 (-1) 1);
+   (pv (-1) (-1) 1, pv 1 1 (-1)); (pv (-1) (-1) (-1), pv 1 1 1)].
 Definition ex_trees : list ctree :=
   [CLeaf 0; CLeaf 1; CLeaf 2; CLeaf 3; CLeaf 4; CLeaf 5; CLeaf 6; CLeaf 7].
 Example C07_nonvacuous :
